@@ -1242,3 +1242,252 @@ func ruleR20i(c *Ctx) {
 	}
 	c.floor("R20i", "scalar arms of the converter", 4, n)
 }
+
+// R14h: text/template.JSEscape writes an unprintable character beyond U+FFFF as \u followed by five or six
+// hex digits ("1"), which JavaScript reads as  and a digit: another string. The generator may use
+// the library escaper only inside a function that deals with those characters itself (it encodes them as a
+// surrogate pair, unicode/utf16.EncodeRune): every call of text/template.JSEscape / JSEscapeString in
+// package soyjs sits in such a function.
+func ruleR14h(c *Ctx) {
+	p := c.pkg("soyjs")
+	if p == nil {
+		return
+	}
+	info := p.TypesInfo
+	n := 0
+	for _, fd := range c.allFuncDecls("soyjs") {
+		if strings.HasSuffix(c.Fset.Position(fd.Pos()).Filename, "_test.go") {
+			continue
+		}
+		handles := false
+		var calls []*ast.CallExpr
+		ast.Inspect(fd.Body, func(x ast.Node) bool {
+			call, ok := x.(*ast.CallExpr)
+			if !ok {
+				return true
+			}
+			cal := calleeFunc(call, info)
+			if cal == nil || cal.Pkg() == nil {
+				return true
+			}
+			switch {
+			case cal.Pkg().Path() == "unicode/utf16" && cal.Name() == "EncodeRune":
+				handles = true
+			case (cal.Pkg().Path() == "text/template" || cal.Pkg().Path() == "html/template") && strings.HasPrefix(cal.Name(), "JSEscape"):
+				calls = append(calls, call)
+			}
+			return true
+		})
+		for i, call := range calls {
+			n++
+			c.check(handles, "R14h", fmt.Sprintf("%s library-escaper#%d", c.declKey("soyjs", fd), i+1), call.Pos(),
+				"the library escaper is used inside the function that encodes characters beyond U+FFFF itself",
+				"text handed to "+exprKey(call.Fun)+" directly: an unprintable character beyond U+FFFF in it (U+E0001, say) is written as \\uE0001, which JavaScript reads as U+E000 followed by the digit 1, so the generated literal denotes a different string")
+		}
+	}
+	c.floor("R14h", "uses of the library's JavaScript escaper in the generator", 1, n)
+}
+
+// ---- round 7 ----
+
+// typeHoldsNode: t (through pointers, slices, arrays, maps and the fields of module structs, a few levels deep)
+// holds ast nodes.
+func typeHoldsNode(t types.Type, depth int) bool {
+	if depth > 5 {
+		return false
+	}
+	switch u := t.(type) {
+	case *types.Pointer:
+		return typeHoldsNode(u.Elem(), depth+1)
+	case *types.Slice:
+		return typeHoldsNode(u.Elem(), depth+1)
+	case *types.Array:
+		return typeHoldsNode(u.Elem(), depth+1)
+	case *types.Map:
+		return typeHoldsNode(u.Key(), depth+1) || typeHoldsNode(u.Elem(), depth+1)
+	case *types.Named:
+		if r, _, ok := relPkgOfType(u); ok {
+			if r == "ast" {
+				switch u.Underlying().(type) {
+				case *types.Struct, *types.Interface:
+					return true
+				}
+				return false
+			}
+			if st, ok := u.Underlying().(*types.Struct); ok {
+				for i := 0; i < st.NumFields(); i++ {
+					if typeHoldsNode(st.Field(i).Type(), depth+1) {
+						return true
+					}
+				}
+			}
+		}
+	}
+	return false
+}
+
+// R13i: a Bundle holds sources, not trees: every Compile parses the texts again. No field of soy.Bundle (nor of
+// the records it keeps per file) holds ast nodes: Registry.Add rewrites the tree it is given (it moves the
+// header params out of the template body), so a tree kept from one compilation is not the tree the next one
+// should see, and the same bundle compiled twice is accepted once and rejected once.
+func ruleR13i(c *Ctx) {
+	p := c.Pkgs[""]
+	if p == nil {
+		return
+	}
+	bobj := p.Types.Scope().Lookup("Bundle")
+	if bobj == nil {
+		c.fatalf("anchor: soy.Bundle not found")
+		return
+	}
+	st, ok := bobj.Type().Underlying().(*types.Struct)
+	if !ok {
+		c.fatalf("anchor: soy.Bundle is not a struct")
+		return
+	}
+	n := 0
+	for i := 0; i < st.NumFields(); i++ {
+		f := st.Field(i)
+		if _, isFunc := f.Type().Underlying().(*types.Signature); isFunc {
+			continue
+		}
+		if sl, ok := f.Type().Underlying().(*types.Slice); ok {
+			if _, isFunc := sl.Elem().Underlying().(*types.Signature); isFunc {
+				continue
+			}
+		}
+		n++
+		c.check(!typeHoldsNode(f.Type(), 0), "R13i", "soy.Bundle."+f.Name()+" holds-no-trees", f.Pos(), "holds no parsed tree",
+			"the bundle keeps parsed trees in "+f.Name()+" ("+f.Type().String()+"): Registry.Add rewrites the tree it registers, so a second Compile of the same bundle works on an altered tree and can reject what the first accepted")
+	}
+	c.floor("R13i", "data fields of soy.Bundle", 3, n)
+}
+
+// R06j: a Tofu is a view of the registry it was given, which a watching Bundle replaces in place: it keeps no
+// table derived from the registry's contents and no per-template objects. soyhtml.Tofu has no field of map,
+// slice or array type (an index built in NewTofu goes stale when the registry shrinks, and is consulted before
+// the recover handler is installed; a cache of renderers carries one call's bundle and injected data into
+// the next).
+func ruleR06j(c *Ctx) {
+	p := c.pkg("soyhtml")
+	if p == nil {
+		return
+	}
+	tobj := p.Types.Scope().Lookup("Tofu")
+	if tobj == nil {
+		c.fatalf("anchor: soyhtml.Tofu not found")
+		return
+	}
+	st, ok := tobj.Type().Underlying().(*types.Struct)
+	if !ok {
+		c.fatalf("anchor: soyhtml.Tofu is not a struct")
+		return
+	}
+	var holdsCollection func(t types.Type, depth int) bool
+	holdsCollection = func(t types.Type, depth int) bool {
+		if depth > 4 {
+			return false
+		}
+		switch u := t.Underlying().(type) {
+		case *types.Map, *types.Slice, *types.Array:
+			return true
+		case *types.Pointer:
+			return holdsCollection(u.Elem(), depth+1)
+		case *types.Struct:
+			if _, _, isMod := relPkgOfType(t); !isMod {
+				return t.String() == "sync.Map" || t.String() == "sync.Pool"
+			}
+			for i := 0; i < u.NumFields(); i++ {
+				if holdsCollection(u.Field(i).Type(), depth+1) {
+					return true
+				}
+			}
+		}
+		return false
+	}
+	bad := 0
+	for i := 0; i < st.NumFields(); i++ {
+		f := st.Field(i)
+		// the registry itself is what the Tofu is a view of
+		if r, tn, ok := relPkgOfType(f.Type()); ok && r == "template" && tn == "Registry" {
+			continue
+		}
+		if holdsCollection(f.Type(), 0) {
+			bad++
+			c.bad("R06j", "soyhtml.Tofu."+f.Name()+" no-derived-table", f.Pos(),
+				"the Tofu keeps a collection of its own in "+f.Name()+" ("+f.Type().String()+"): the registry it views is replaced in place on recompilation, so positions or objects remembered from an earlier state are used against the new one (an index past the end before any recover is installed; a renderer that still carries another call's message bundle)")
+		}
+	}
+	if bad == 0 {
+		c.ok("R06j", "soyhtml.Tofu no-derived-table", tobj.Pos(), fmt.Sprintf("none of the %d fields of Tofu (the registry it views apart) holds a map, slice, array or pool", st.NumFields()))
+	}
+	c.floor("R06j", "fields of soyhtml.Tofu", 1, st.NumFields())
+}
+
+// R18c: a goroutine the compiler starts has ended when the compiler returns: in the root package, on every
+// path from a `go func(){...}()` statement to a return of the enclosing function there is a call of
+// (*sync.WaitGroup).Wait. (Workers that send their results on an unbuffered channel stay blocked for ever
+// when the receiver returns at the first error.)
+func ruleR18c(c *Ctx) {
+	p := c.Pkgs[""]
+	if p == nil {
+		return
+	}
+	info := p.TypesInfo
+	nr := newNoRet(c)
+	n := 0
+	for _, fd := range c.allFuncDecls("") {
+		if strings.HasSuffix(c.Fset.Position(fd.Pos()).Filename, "_test.go") {
+			continue
+		}
+		hasGoLit := false
+		ast.Inspect(fd.Body, func(x ast.Node) bool {
+			if g, ok := x.(*ast.GoStmt); ok {
+				if _, ok := ast.Unparen(g.Call.Fun).(*ast.FuncLit); ok {
+					hasGoLit = true
+				}
+			}
+			return true
+		})
+		if !hasGoLit {
+			continue
+		}
+		n++
+		var badAt token.Pos
+		runFlow(fd.Body, nr.forInfo(info), flowState{}, func(nd ast.Node, st flowState, report bool) flowState {
+			switch s := nd.(type) {
+			case *ast.GoStmt:
+				if _, ok := ast.Unparen(s.Call.Fun).(*ast.FuncLit); ok {
+					st["started"] = 1
+				}
+				return st
+			case *ast.ReturnStmt:
+				if report && st["started"]&1 != 0 && badAt == token.NoPos {
+					badAt = s.Pos()
+				}
+			}
+			ast.Inspect(nd, func(y ast.Node) bool {
+				if _, ok := y.(*ast.FuncLit); ok {
+					return false
+				}
+				if call, ok := y.(*ast.CallExpr); ok {
+					if cal := calleeFunc(call, info); cal != nil && cal.FullName() == "(*sync.WaitGroup).Wait" {
+						st["started"] = 0
+					}
+				}
+				return true
+			})
+			return st
+		})
+		c.check(badAt == token.NoPos, "R18c", c.declKey("", fd)+" goroutines-joined", func() token.Pos {
+			if badAt != token.NoPos {
+				return badAt
+			}
+			return fd.Pos()
+		}(), "every return after a goroutine literal was started is preceded by WaitGroup.Wait",
+			"a path returns while goroutines started here may still be running (no WaitGroup.Wait on the way): a worker blocked on its send or still parsing is left behind each time this happens")
+	}
+	if n == 0 {
+		c.ok("R18c", "root-package goroutines-joined", token.NoPos, "the root package starts no function literal as a goroutine")
+	}
+}
